@@ -632,6 +632,7 @@ pub struct Tally2 {
 
 pub fn run(tier: Tier) -> i32 {
     let mut rep = Reporter::new("C03", tier, "model_checking");
+    rep.start_unchecked_flavour();
     // (a)
     let (tally, viols) = run_lattice(tier);
     rep.violations(viols);
